@@ -227,6 +227,6 @@ def run(ctx):
         extra["par1"] = "PAR1 part not built yet"
     return ctx.finish(
         "proof",
-        rule="PAR2 archive states from the C01 generator (incl. beyond-capacity damage, pairs of damages, dropped recovery files) plus damaged / truncated / garbage / foreign recovery files, with bystander files, a foreign .par2 in a sub-directory and a file outside the set directory; half of the Repairs and all listed Verifies on a real directory whose whole tree is snapshotted before and after; Create in memory and on disk; SYSCALL FOOTPRINT: real-directory Creates, Repairs and Verifies (PAR2 and PAR1, incl. bystanders named like temporaries) run under strace - every file-system call between the harness markers must stay below the set directory and every create/truncate/rename/unlink/mkdir/chmod must target a path the operation may write; non-trivial = some protected file differs from its original",
+        rule="PAR2 archive states from the C01 generator (incl. beyond-capacity damage, pairs of damages, dropped recovery files) plus damaged / truncated / garbage / foreign recovery files, with bystander files, a foreign .par2 in a sub-directory and a file outside the set directory; half of the Repairs and all listed Verifies on a real directory whose whole tree is snapshotted before and after; Create in memory and on disk; SYSCALL FOOTPRINT: real-directory Creates, Repairs and Verifies (PAR2 and PAR1, incl. bystanders named like temporaries) run under strace - every create/truncate/rename/unlink/mkdir/chmod between the harness markers must target a path the operation may write, below the set directory; non-trivial = some protected file differs from its original",
         extra=dict(extra, predicate="changed paths subset of repaired paths subset of protected paths, each holding exactly the original bytes, for every outcome; Verify and Create leave everything else (Create: everything but its own outputs) unchanged",
                    compared="outcome class, repaired list, I/O trace, changed files vs the extracted model"))
